@@ -2,6 +2,7 @@
 translator facts (Gen/Facts.v, access_ok) + observed programs in a world whose
 stores share mailbox ids, judged by the Coq oracle Spec/ProtoCheck.v."""
 import json
+import re
 import common as C
 import proto_common as P
 
@@ -55,6 +56,51 @@ def delivery_probe(chk):
         if extra or want not in changed:
             chk.violation("a delivery addressed to %s changed stores %s (expected only %s and the shared tables)" % (rcpt, changed, want),
                           {"suite": "delivery", "rcpt": rcpt, "changed": changed, "expected": want})
+    return n
+
+
+def blob_isolation_probe(chk):
+    """deliveries of large bodies (stored out of line in the SHARED blob table, de-duplicated by content) to four
+    users in an order that makes a de-duplication hit follow another user's fresh blob: afterwards every user
+    fetches the own mailbox and must be served, with the own content only"""
+    def big(marker, to):
+        filler = "".join("%s line %03d of a body that is stored out of line 0123456789 abcdefghijklmnopqrstuvwxyz\r\n" % (marker, i) for i in range(24))
+        return "From: sender@example.com\r\nTo: %s\r\nSubject: big %s\r\nMessage-ID: <%s.%s@x>\r\n\r\n%s" % (to, marker, marker, to.split("@")[0], filler)
+    C_, D_ = "carol@example.com", "dave@example.com"
+    plan = [(P.A, "MKSHAREDBIG"), (P.B, "MKBOBBIG"), (C_, "MKSHAREDBIG"), (D_, "MKDAVEBIG"), (P.A, "MKBOBBIG2"), (P.B, "MKSHAREDBIG")]
+    own = {P.A: ["MKSHAREDBIG", "MKBOBBIG2"], P.B: ["MKBOBBIG", "MKSHAREDBIG"], C_: ["MKSHAREDBIG"], D_: ["MKDAVEBIG"]}
+    ops = list(P.setup_ops()) + [{"op": "lmtp_open", "conn": "l3"}, {"op": "send", "conn": "l3", "data": "LHLO x\r\n", "until": "lmtp:1"}]
+    for rcpt, mk in plan:
+        # the body must be byte-identical for equal markers (same blob): only the header names the recipient
+        ops += P.lmtp_deliver("l3", rcpt, big(mk, rcpt).replace("%s line" % mk, "%s line" % mk))
+    first = len(ops)
+    for k, u in enumerate([P.A, P.B, C_, D_]):
+        c = "f%d" % k
+        ops += [{"op": "open", "conn": c, "kind": "tls"},
+                {"op": "send", "conn": c, "data": "a LOGIN %s pw\r\n" % u, "until": "tag:a", "timeout_ms": 20000},
+                {"op": "send", "conn": c, "data": "b SELECT INBOX\r\n", "until": "tag:b", "timeout_ms": 20000},
+                {"op": "send", "conn": c, "data": "c FETCH 1:* (BODY.PEEK[])\r\n", "until": "tag:c", "timeout_ms": 20000}]
+    r = C.run_ops(ops, timeout=600)
+    if r.get("crashed"):
+        chk.notes.append("blob isolation probe: driver crashed: %s" % r.get("stderr", "")[:200])
+        return 0
+    allm = ["MKSHAREDBIG", "MKBOBBIG2", "MKBOBBIG", "MKDAVEBIG"]
+    n = 0
+    for k, u in enumerate([P.A, P.B, C_, D_]):
+        recv = r["obs"][first + 4 * k + 3].get("recv", "")
+        n += 1
+        okline = re.search(r"^c OK", recv, re.M) is not None
+        seen = set()
+        for mk in allm:
+            # MKBOBBIG is a prefix of MKBOBBIG2: count a marker only where it is followed by " line"
+            if re.search(re.escape(mk) + r" line", recv):
+                seen.add(mk)
+        foreign = sorted(seen - set(own[u]))
+        missing = sorted(set(own[u]) - seen)
+        if not okline or foreign or missing:
+            chk.violation("after deliveries of large bodies to four users, %s fetching the own INBOX %s: content of other users' deliveries shown %s, own content missing %s"
+                          % (u, "was answered OK" if okline else "was NOT answered OK (%s)" % recv.strip().splitlines()[-1][:100] if recv.strip() else "got no answer", foreign, missing),
+                          {"suite": "blob_isolation", "user": u, "plan": plan, "foreign": foreign, "missing": missing, "answer_tail": recv[-300:]})
     return n
 
 
@@ -116,7 +162,7 @@ def run(chk, searching=False):
             o = s["lines"][i]
             chk.violation("%s: line %d '%s %s' changed %s revealed %s" % ("; ".join(MINE[v] for v in mine), i, o["word"], o["arg"], o["changed"], o["revealed"]),
                           {"suite": "programs", "kind": s["kind"], "program": s["prog"], "line": i, "verdicts": mine, "observation": o})
-    nprobe = 0 if searching else delivery_probe(chk)
+    nprobe = 0 if searching else (delivery_probe(chk) + blob_isolation_probe(chk))
     chk.cov["evaluations"] = sum(len(s["lines"]) for s in good) + nprobe
     chk.cov["programs"] = len(good)
     chk.cov["distinct_nontrivial"] = len(distinct)
